@@ -24,7 +24,8 @@ func xmlAttrEscape(s string) string {
 }
 
 var c16ids = []string{"b3c2-uuid-4f", "", "a<b", "'q'", "é", strings.Repeat("i", 200), "with two  spaces", "a&b", "0"}
-var c16replies = []string{"handshake", "error-conflict", "error-host-unknown", "error-not-authorized", "message", "features", "malformed", "close"}
+var c16replies = []string{"handshake", "error-conflict", "error-host-unknown", "error-not-authorized", "message", "features", "malformed", "close",
+	"handshake-cut", "handshake-then-stream-close", "handshake-bad-entity", "handshake-bad-end-tag"}
 
 func c16reply(r string) string {
 	switch r {
@@ -42,6 +43,15 @@ func c16reply(r string) string {
 		return "<stream:features/>"
 	case "malformed":
 		return malformedXML
+	// replies that only BEGIN like a handshake element: not a handshake element
+	case "handshake-cut":
+		return "<handshake>"
+	case "handshake-then-stream-close":
+		return "<handshake></stream:stream>"
+	case "handshake-bad-entity":
+		return "<handshake>&bogus;</handshake>"
+	case "handshake-bad-end-tag":
+		return "<handshake>abc</handshak>"
 	}
 	return ""
 }
@@ -96,6 +106,10 @@ func c16body(secret string) func() {
 					return
 				}
 				s.send(c16reply(reply))
+				if reply == "handshake-cut" {
+					s.close()
+					return
+				}
 				if reply == "handshake" {
 					s.send("<message from='x@example.org' to='comp.example.org' id='probe'><body>probe</body></message>")
 					probeSent = true
